@@ -1943,6 +1943,16 @@ func (e *Enc) contentOf(st *State, v *Val) (*Val, error) {
 func selectPatterns(body string, vars []string) []string {
 	seen := map[string]bool{}
 	var out []string
+	// variables bound by quantifiers NESTED in the body (a symbol in head position of a list is a binder: `(|q!m!7| Int)`):
+	// a term that mentions one of them is not in scope of the quantifier the patterns are selected for
+	var innerBound []string
+	for i := 0; i+4 < len(body); i++ {
+		if body[i] == '(' && body[i+1] == '|' && strings.HasPrefix(body[i+2:], "q!") {
+			if j := strings.IndexByte(body[i+2:], '|'); j > 0 {
+				innerBound = append(innerBound, body[i+1:i+2+j+1])
+			}
+		}
+	}
 	// positions of "(select "
 	for i := 0; i+8 <= len(body); i++ {
 		if body[i:i+8] != "(select " {
@@ -2022,6 +2032,15 @@ func selectPatterns(body string, vars []string) []string {
 			}
 		}
 		if inner || seen[t] || strings.Contains(t, "(ite ") || strings.Contains(t, "(forall ") || strings.Contains(t, "(exists ") {
+			continue
+		}
+		outOfScope := false
+		for _, w := range innerBound {
+			if strings.Contains(t, w) {
+				outOfScope = true
+			}
+		}
+		if outOfScope {
 			continue
 		}
 		seen[t] = true
